@@ -120,6 +120,29 @@ def grid_oracle(c, reqs, meta, impl, label):
     return checked, skipped
 
 
+def conditional_grid(c, profiles=("debug",)):
+    """The condition of `c ? a : b` drawn from the whole pool: a Bool selects, anything else is a type error (never read as false)."""
+    reqs, meta = [], []
+    for v in POOL:
+        for text in ("c ? 1 : 2", "true ? (c ? 1 : 2) : 3", "x = (c ? 1 : 2); x", "[0, c ? 1 : 2]", "(c ? 1 : 2) + 1", "c ? 1/0 : 7"):
+            reqs.append(ctx_line("k", [("c", "v", v)]))
+            reqs.append(exec_line("k", text))
+            meta.append((v, text))
+    model = run_model(reqs)
+    for prof in profiles:
+        impl = run_impl(reqs, profile=prof, timeout=600)
+        c.add_stream(Stream("conditional with a condition of every type (%s)" % prof, reqs, impl, model))
+        for i, (v, text) in enumerate(meta):
+            oc = outcome_of(impl[2 * i + 1])
+            if v[0] == "b":
+                bad = oc[0] != ("ERR" if text == "c ? 1/0 : 7" and v[1] == "1" else "OK")
+            else:
+                bad = oc[0] != "ERR"
+            if bad:
+                c.violation("implementation-vs-property", "a conditional whose condition is not a Bool did not fail with an error (or a Bool condition did not select)" ,
+                            {"requests": reqs[2 * i: 2 * i + 2], "input_text": text, "condition": sexp_str(v), "implementation": impl[2 * i + 1], "build": prof})
+
+
 def check_C03(c):
     c.prove(["EE.Props.C03"])
     reqs, meta = grid_requests(POOL, not c.quick())
@@ -129,6 +152,7 @@ def check_C03(c):
     c.extra["grid_cells"] = len(meta)
     c.extra["grid_checked_against_reference"] = checked
     c.extra["grid_inexact_no_claim"] = skipped
+    conditional_grid(c)
     # typed programs (AST-direct and text) against the model
     progs = typed_programs(c, 6000 if c.quick() else 120000)
     run_programs(c, progs, "typed programs")
@@ -166,6 +190,7 @@ def check_C04(c):
             if outcome_class(a):
                 c.violation("implementation-vs-property", "fault surfaced as %s (%s build)" % (outcome_class(a), prof),
                             {"request": r, "input_text": unhx(r.split("\t")[2]) if r.startswith("EXEC") else "", "implementation": a})
+    conditional_grid(c, profiles=("debug", "release"))
     progs = typed_programs(c, 4000 if c.quick() else 80000, faulty=True)
     run_programs(c, progs, "fault-biased programs", profiles=("debug", "release"))
     c.extra["debug_release_differences"] = ndiff
@@ -511,13 +536,18 @@ def check_C07(c):
              ("A = B()", [L("A"), L("B")], "OK"), ("A += B()", [L("A"), L("B")], "OK"), ("x = A; A = B(); A", [L("A"), L("A"), L("B")], "OK"),
              ("[B(), A = B2(), A2()]", [L("B"), L("A"), L("B2"), L("A2")], "OK"), ("A = (B = A2())", [L("A"), L("B"), L("A2")], "OK"),
              ("A2(A = 1, B())", [L("A"), L("B"), L("A2", ["none"], one)], "OK"), ("A <<= B()", [L("A"), L("B")], "OK"),
-             ("true ? (A = B()) : A2()", [L("A"), L("B")], "OK"), ("nowhere()", [], "ERR"), ("nowhere(1/0, A())", [], "ERR")]
+             ("true ? (A = B()) : A2()", [L("A"), L("B")], "OK"), ("nowhere()", [], "ERR"), ("nowhere(1/0, A())", [], "ERR"),
+             # every occurrence is evaluated, also of an operand / key / element that is written twice
+             ("{A(): B(), A(): B2()}", [L("A"), L("B"), L("A"), L("B2")], "OK"), ("{1: A(), 2: B(), 1: A2()}", [L("A"), L("B"), L("A2")], "OK"),
+             ("{'k': A(), 'k': A()}", [L("A"), L("A")], "OK"), ("[A(), A(), A()]", [L("A"), L("A"), L("A")], "OK"), ("A() + A() * A()", [L("A"), L("A"), L("A")], "OK"),
+             ("B(A(), A())", [L("A"), L("A"), L("B", one, one)], "OK"), ("x = A; y = A; [A, A]", [L("A"), L("A"), L("A"), L("A")], "OK"),
+             ("true ? A() : A(); false ? A() : A()", [L("A"), L("A")], "OK")]
     treqs = []
     for text, log, oc_ in templ:
         binds = [(nm, "f", ["log", hx(nm), ["const", one]]) for nm in ("A", "A2", "B", "B2")]
         treqs += [ctx_line("c", binds), exec_line("c", text)]
     ti, tm = both(treqs)
-    c.add_stream(Stream("unbound callee / assignment target templates", treqs, ti, tm))
+    c.add_stream(Stream("unbound callee / assignment target / repeated operand templates", treqs, ti, tm))
     for j, (text, log, oc_) in enumerate(templ):
         line = ti[2 * j + 1]
         f = line.split("\t")
@@ -706,13 +736,20 @@ def check_C08(c):
          exec_line("c", "x pct"), reg("postfix", "pct", const(78)), exec_line("c", "x pct"),
          exec_line("c", "x between 2"), reg("infix", "between", const(79), 115), exec_line("c", "x between 2"),
          exec_line("c", "!!x"), reg("prefix", "!!", const(80)), exec_line("c", "!!x"), reg("postfix", "%%", const(81)), exec_line("c", "x %%")],
+        # a registration replaces the handler of *that name* only: the compound assignment `-=` is another name than `-`
+        # (and `-` the prefix operator another registry than `-` the infix one), in both directions
+        [reg("infix", "-", ["bi", hx("+")], 110), reg("infix", "<<", const(9), 100), "CTX\tc\t()", exec_line("c", "3 - 10"), exec_line("c", "a = 3; a -= 10; a"),
+         exec_line("c", "b = 1; b <<= 2; b"), exec_line("c", "1 << 2"), exec_line("c", "- 4"),
+         "REG\tinfix\t%s\t20\tsetter\tright\t%s" % (hx("+="), sexp_str(const(5))), exec_line("c", "d = 1; d += 2; d"), exec_line("c", "1 + 2"),
+         exec_line("c", "e = 1; e *= 3; e")],
     ]
     EXPECT = {0: {2: "(n 0 1 0)", 4: "(n 0 2 0)", 7: "(n 0 8 0)"}, 1: {2: "(n 1 7 0)"}, 2: {1: "(n 0 2 0)", 3: "(n 1 7 0)"},
               3: {2: "(n 0 42 0)", 3: "(n 0 1 0)"}, 4: {2: "(n 0 42 0)"}, 5: {2: "(n 0 42 0)", 4: "(n 1 1 0)"},
               6: {2: "(n 0 10 0)", 4: "(n 0 1 0)", 5: "(n 0 5 0)", 7: "(n 0 1 0)", 8: "ERR"}, 7: {1: "(n 0 10 0)", 3: "(n 0 2 0)"},
               8: {3: "(n 0 8 0)"}, 9: {4: "(n 0 2 0)"},
               10: {4: "(n 0 2 0)", 5: "(n 0 42 0)"}, 11: {2: "(n 0 200 0)", 3: "(n 0 100 0)", 4: "(n 0 100 0)"},
-              12: {3: "(n 0 77 0)", 6: "(n 0 78 0)", 9: "(n 0 79 0)", 12: "(n 0 80 0)", 14: "(n 0 81 0)"}}
+              12: {3: "(n 0 77 0)", 6: "(n 0 78 0)", 9: "(n 0 79 0)", 12: "(n 0 80 0)", 14: "(n 0 81 0)"},
+              13: {3: "(n 0 13 0)", 4: "(n 1 7 0)", 5: "(n 0 4 0)", 6: "(n 0 9 0)", 7: "(n 1 4 0)", 9: "(n 0 5 0)", 10: "(n 0 3 0)", 11: "(n 0 3 0)"}}
     for hi, h in enumerate(H):
         impl, model = both(h)
         c.add_stream(Stream("dispatch history %d (fresh process)" % hi, h, impl, model))
